@@ -126,6 +126,11 @@ func (w *World) RunConnWorld() {
 
 func (w *World) teardown() {
 	w.TearingDown = true
+	w.TeardownSeq = simrt.Seq()
+	if os.Getenv("VERIF_DEBUG") == "3" {
+		fmt.Fprintln(os.Stderr, "---- stacks at teardown ----")
+		fmt.Fprintln(os.Stderr, simrt.AllStacks())
+	}
 	// release NoAnswer handlers, close connections and servers, let things settle
 	w.collectSignals()
 	w.shutdown = true
